@@ -3,6 +3,10 @@
 
     @ tape fp|rat                 new case: one WengertList, element type Fp or Rat   → ok
     <instruction line>            (Driver/Prog.lean)      → v=<value> const=<0|1> ## idx=<index>
+    cmp <op> <a> <b>              == != < <= > >= partial_cmp of two records
+                                                          → c=… (the comparison of the plain values)
+    clone <r> <a>                 Clone                   → v=… const=… ## idx=… (of the copy)
+    show <a>                      Display                 → s=<the plain value>
     derivs <r>                    Record::derivatives     → d=<∂r/∂x per input, in creation order>
                                                              ## full=<the whole vector>
                                                           | panic(explicit)      (r is a constant)
@@ -77,8 +81,36 @@ def stepDerivs (s : PState R) (k : Nat) (try_ : Bool) : String :=
         s!"{if try_ then "some " else ""}d={renderList g} ## full={renderList full}"
     | .panic kind => s!"MODEL-SPEC-DISAGREE panic({kind})"
 
+def stepCmp (s : PState R) (op : String) (a b : Nat) : String :=
+  let (x, y) := (s.vs.getD a 0, s.vs.getD b 0)
+  let (ra, rb) := (getRec s.recs a, getRec s.recs b)
+  match cmpAnswer op (NumOrd.eq x y) (numPartialCmp x y),
+        cmpAnswer op (ra.eq rb s.w).1 (ra.partialCmp rb s.w).1 with
+  | some spec, some model => flag (spec == model) spec
+  | _, _ => "bad-op"
+
 def stepP (s : PState R) (toks : List String) : PState R × String :=
   match toks with
+  | "cmp" :: op :: a :: b :: _ =>
+    match s.names.find a, s.names.find b with
+    | some a, some b => (s, stepCmp s op a b)
+    | _, _ => (s, "bad-ref")
+  | "clone" :: name :: a :: _ =>
+    match s.names.find a with
+    | some k =>
+      let r := (getRec s.recs k).clone
+      let v := s.vs.getD k 0
+      let dep := s.deps.getD k false
+      ({ s with names := (name, k) :: s.names },
+       flag (r.number == v && r.isConstant == !dep)
+         s!"v={Elem.render v} const={if dep then 0 else 1} ## idx={r.index}")
+    | none => (s, "bad-ref")
+  | "show" :: a :: _ =>
+    match s.names.find a with
+    | some k =>
+      let spec := Elem.render (s.vs.getD k 0)
+      (s, flag ((getRec s.recs k).display Elem.render == spec) s!"s={spec}")
+    | none => (s, "bad-ref")
   | ["derivs", r] | ["derivs", r, _] =>
     match s.names.find r with
     | some k => (s, stepDerivs s k false)
@@ -97,6 +129,7 @@ end
 
 def step (s : State) (toks : List String) : State × String :=
   match toks with
+  -- `via=new|default` (WengertList::new / Default) is an API variant: same model
   | "@" :: "tape" :: "fp" :: _ => (.fp {}, "ok")
   | "@" :: "tape" :: "rat" :: _ => (.rat {}, "ok")
   | _ =>
